@@ -675,6 +675,32 @@ def c11():
             c2["poff"] = 27
             extra.append(c2)
         p.cases += extra
+    # files whose data holds a complete parquet file of its own (other columns, one row group) as a string value, stored verbatim
+    # (uncompressed; and, where it is a page's minimum or maximum, in the page header's statistics under any codec): the prefix
+    # that ends behind the value ends in a genuine footer, length and magic
+    nemb = 0
+    for p in ok:
+        def embed(rec, nodes):
+            return [(embed(v, n["kids"]) if n["typ"] == "group" and n["rep"] == "req" else
+                     [embed(x, n["kids"]) for x in v] if n["typ"] == "group" else
+                     (997 if n["rep"] == "req" else [997 for _ in v]) if n["typ"] == "string" else v) for v, n in zip(rec, nodes)]
+        for c in list(p.cases[:2]):
+            adds = [o for o in c["ops"] if o["op"] == "add"]
+            if len(adds) < 2:
+                continue
+            c2 = dict(c, codec="uncompressed" if nemb % 2 == 0 else c["codec"])
+            k = 0
+            ops = []
+            for o in c["ops"]:
+                if o["op"] == "add":
+                    k += 1
+                    if k == 2:
+                        o = {"op": "add", "rec": embed(o["rec"], p.schema)}
+                ops.append(o)
+            c2["ops"] = ops
+            p.cases.append(c2)
+            nemb += 1
+    ck.cov["files_with_an_embedded_parquet_file_as_a_value"] = nemb
     for p in ok:
         for c in p.cases:
             c["reads"] = [{"mode": "plain"}, {"mode": "trunc", "alltrunc": True}]
